@@ -19,3 +19,21 @@ except Exception:
 with open(normal.DATA, "w") as f:
     json.dump(ref, f, indent=0, sort_keys=True)
 print(f"{sum(len(v) for v in ref['inventory'].values())} functions, {sum(len(v) for v in ref['roles'].values())} local roles -> {normal.DATA}")
+
+# obligation inventory: the keys every quick check produces on this tree (report.Check.finish refuses a verdict when one goes missing)
+import tempfile
+fd, path = tempfile.mkstemp(suffix=".jsonl"); os.close(fd)
+env = dict(os.environ, VERIF_DUMP_KEYS=path, VERIF_NO_EVIDENCE="1", VERIF_KEY_INVENTORY="0", VERIF_OUT=tempfile.gettempdir())
+env.pop("VERIF_NO_REFERENCE", None)
+here = os.path.dirname(os.path.abspath(__file__))
+subprocess.run([sys.executable, "-B", "-m", "sa.allprops", root], cwd=here, env=env, capture_output=True, text=True)
+inv = {}
+for line in open(path):
+    d = json.loads(line)
+    if d["rc"] == 2:
+        print("WARNING: analysis error while collecting the inventory of", d["pid"])
+    inv[d["pid"]] = d["keys"]
+os.unlink(path)
+with open(os.path.join(here, "sa", "data", "obligation_keys.json"), "w") as f:
+    json.dump(inv, f, indent=0, sort_keys=True)
+print(f"{sum(len(v) for v in inv.values())} obligation keys in {len(inv)} properties -> sa/data/obligation_keys.json")
